@@ -5,27 +5,36 @@
 
 using namespace vp;
 
-enum { OP_ADD, OP_SUB, OP_MUL, OP_DIV, OP_ADD_A, OP_SUB_A, OP_MUL_A, OP_DIV_A, OP_PREINC, OP_POSTINC, OP_PREDEC, OP_POSTDEC, OP_NEG, OP_SQRT, OP_SC_SQRT, OP_COUNT };
+enum { OP_ADD, OP_SUB, OP_MUL, OP_DIV, OP_ADD_A, OP_SUB_A, OP_MUL_A, OP_DIV_A, OP_PREINC, OP_POSTINC, OP_PREDEC, OP_POSTDEC, OP_NEG, OP_SQRT, OP_SC_SQRT, OP_MUL_ADD_SEQ, OP_MUL_SUB_SEQ, OP_MULA_ADDA_SEQ, OP_COUNT };
 static const VpOp OPS[] = {
     {"add", {VK_FLT, VK_FLT_REL}, {SK_SMALL}, 2}, {"sub", {VK_FLT, VK_FLT_REL}, {SK_SMALL}, 2}, {"mul", {VK_FLT, VK_FLT_REL}, {SK_SMALL}, 2}, {"div", {VK_FLT, VK_FLT_REL}, {SK_SMALL}, 2},
     {"add_assign", {VK_FLT, VK_FLT_REL}, {SK_SMALL}, 1}, {"sub_assign", {VK_FLT, VK_FLT_REL}, {SK_SMALL}, 1}, {"mul_assign", {VK_FLT, VK_FLT_REL}, {SK_SMALL}, 1}, {"div_assign", {VK_FLT, VK_FLT_REL}, {SK_SMALL}, 1},
     {"preinc", {VK_FLT}, {SK_SMALL}, 1}, {"postinc", {VK_FLT}, {SK_SMALL}, 1}, {"predec", {VK_FLT}, {SK_SMALL}, 1}, {"postdec", {VK_FLT}, {SK_SMALL}, 1},
     {"unary_minus", {VK_FLT}, {SK_SMALL}, 1}, {"sqrt", {VK_FLT}, {SK_SMALL}, 2}, {"scalar_sqrt", {VK_FLT}, {SK_SMALL}, 1},
+    // two operators in one expression: each rounds on its own (a product feeding a sum is two IEEE operations, never one fused multiply-add)
+    {"mul_then_add", {VK_FLT, VK_FLT_REL, VK_FLT_REL}, {SK_SMALL}, 2}, {"mul_then_sub", {VK_FLT, VK_FLT_REL, VK_FLT_REL}, {SK_SMALL}, 1}, {"mul_assign_then_add_assign", {VK_FLT, VK_FLT_REL, VK_FLT_REL}, {SK_SMALL}, 1},
 };
-enum { CL_INEXACT, CL_ZERO, CL_SUBNORMAL, CL_INF, CL_NAN, CL_OVERFLOW, CL_UNDERFLOW, CL_NON_NEAREST_MODE, CL_ORDINARY };
+enum { CL_INEXACT, CL_ZERO, CL_SUBNORMAL, CL_INF, CL_NAN, CL_OVERFLOW, CL_UNDERFLOW, CL_NON_NEAREST_MODE, CL_ORDINARY, CL_FUSED_DIFFERS };
 static const char* const CLASSES[] = {"inexact_result", "zero_operand_or_result", "subnormal_operand_or_result", "infinite_operand", "nan_operand", "overflow_to_infinity",
-                                      "underflow_result", "directed_rounding_mode", "ordinary"};
+                                      "underflow_result", "directed_rounding_mode", "ordinary", "fused_multiply_add_would_differ"};
 extern "C" const char* vp_property(void) { return "C10"; }
 extern "C" const VpOp* vp_ops(uint32_t* n) { *n = OP_COUNT; return OPS; }
-extern "C" const char* const* vp_class_names(uint32_t* n) { *n = 9; return CLASSES; }
+extern "C" const char* const* vp_class_names(uint32_t* n) { *n = 10; return CLASSES; }
 extern "C" const char* vp_rule(void) {
     return "a case is an operand vector (pair), an operator form and one of the four rounding modes; non-trivial = some lane whose exact result is inexact "
-           "(the rounding mode matters) or involves a zero, subnormal, infinity, NaN, overflow or underflow; distinct = distinct hash of the Case";
+           "(the rounding mode matters) or involves a zero, subnormal, infinity, NaN, overflow or underflow, or (two-operator sequences) a triple for which a fused multiply-add would give another result; distinct = distinct hash of the Case";
 }
 #define FLTCLS(c) ((c) == 2)
 VP_DEFINE_VECTOR_TARGETS(FLTCLS)
 
 // the AVEL call sits in noinline functions taking operands through memory, so no FP operation can move across the mode change
+template<class V> __attribute__((noinline)) static void do_seq(unsigned op, const V* a, const V* b, const V* c, V* r) {
+    switch (op) {
+    case OP_MUL_ADD_SEQ: *r = *a * *b + *c; break;
+    case OP_MUL_SUB_SEQ: *r = *a * *b - *c; break;
+    default: { V t = *a; t *= *b; t += *c; *r = t; break; }
+    }
+}
 template<class V> __attribute__((noinline)) static void do_op(unsigned op, const V* a, const V* b, V* r, V* r2) {
     switch (op) {
     case OP_ADD: *r = *a + *b; break; case OP_SUB: *r = *a - *b; break; case OP_MUL: *r = *a * *b; break; case OP_DIV: *r = *a / *b; break;
@@ -39,6 +48,43 @@ template<class V> __attribute__((noinline)) static void do_op(unsigned op, const
 }
 template<class T> __attribute__((noinline)) static void do_scalar_sqrt(const T* a, T* r) { *r = avel::sqrt(*a); }
 
+template<class V> static void run_seq(const VpCase* c, VpOutcome* o, int mode, const uint64_t* al, const uint64_t* bl) {
+    typedef typename V::scalar T;
+    typedef FB<T> F;
+    const unsigned W = V::width, op = c->op;
+    uint64_t cl[VP_MAXL], exp[VP_MAXL], got[VP_MAXL], fused[VP_MAXL];
+    for (unsigned i = 0; i < W; ++i) cl[i] = c->v[2][i] & F::mask();
+    V a = mk<V>(al), b = mk<V>(bl), cc = mk<V>(cl), r = a;
+    FpEnv before, after;
+    {
+        RoundGuard g(mode);
+        before = FpEnv::take();
+        poison_below(al[0] ^ op);
+        do_seq<V>(op, &a, &b, &cc, &r); rd<V>(r, got);
+        after = FpEnv::take();
+        for (unsigned i = 0; i < W; ++i) {
+            const uint64_t p = Ref<T>::bin(R_MUL, al[i], bl[i]);
+            exp[i] = Ref<T>::bin(op == OP_MUL_SUB_SEQ ? R_SUB : R_ADD, p, cl[i]);
+            fused[i] = Ref<T>::fma(al[i], bl[i], op == OP_MUL_SUB_SEQ ? (cl[i] ^ F::sgn()) : cl[i]);
+        }
+    }
+    bool nt = mode != 0;
+    if (mode != 0) o->classes |= 1u << CL_NON_NEAREST_MODE;
+    for (unsigned i = 0; i < W; ++i) {
+        auto cls = [&](unsigned k) { o->classes |= 1u << k; nt = true; };
+        if (!F::isnan(exp[i]) && fused[i] != exp[i]) cls(CL_FUSED_DIFFERS);
+        if (F::isnan(al[i]) || F::isnan(bl[i]) || F::isnan(cl[i])) cls(CL_NAN);
+        if (F::isinf(al[i]) || F::isinf(bl[i]) || F::isinf(cl[i])) cls(CL_INF);
+        if (F::issub(al[i]) || F::issub(bl[i]) || F::issub(cl[i])) cls(CL_SUBNORMAL);
+        if (F::iszero(exp[i])) cls(CL_ZERO);
+        if (F::isnan(exp[i]) && F::isnan(got[i])) got[i] = exp[i];
+    }
+    if (nt) o->nontrivial = 1; else o->classes |= 1u << CL_ORDINARY;
+    if (!before.same(after)) { fail(o, -1, "fp_environment_changed", "%s changed the FP environment", OPS[op].name); return; }
+    char tag[96]; std::snprintf(tag, sizeof tag, "two_roundings:mode%d", mode);
+    cmp_lanes(o, W, exp, got, nullptr, tag, OPS[op].name);
+}
+
 template<class V> static void run(const VpCase* c, VpOutcome* o) {
     typedef typename V::scalar T;
     typedef FB<T> F;
@@ -49,6 +95,7 @@ template<class V> static void run(const VpCase* c, VpOutcome* o) {
     uint64_t al[VP_MAXL], bl[VP_MAXL], exp[VP_MAXL], exp2[VP_MAXL], got[VP_MAXL], got2[VP_MAXL];
     const uint64_t one = elem<T>::to_bits(T(1));
     for (unsigned i = 0; i < W; ++i) { al[i] = c->v[0][i] & F::mask(); bl[i] = c->v[1][i] & F::mask(); }
+    if (op >= OP_MUL_ADD_SEQ) { run_seq<V>(c, o, mode, al, bl); return; }
     V a = mk<V>(al), b = mk<V>(bl), r = a, r2 = a;
     bool two = (op >= OP_PREINC && op <= OP_POSTDEC);
     FpEnv before, after;
@@ -141,6 +188,22 @@ extern "C" void vp_enum(int tier, uint64_t seed, uint32_t shard, uint32_t nshard
         for (unsigned op = 0; op < OP_COUNT; ++op) {
             if ((job++ % nshards) != shard) continue;
             if (op == OP_SC_SQRT && W != 1) continue;
+            if (op >= OP_MUL_ADD_SEQ) {
+                // products of boundary mantissas (inexact) plus an addend that cancels most of the product or sits half an ulp away: the triples where fusing shows
+                const std::vector<uint64_t> S = vpl::flt_lattice_small(B);
+                const size_t m = S.size();
+                for (int mode = 0; mode < 4; ++mode) {
+                    VpCase c; std::memset(&c, 0, sizeof c); c.target = t; c.op = op; c.s[0] = mode;
+                    size_t fill = 0; uint64_t rot = seed + op + mode;
+                    for (size_t i = 0; i < m; i += (tier ? 1 : 2)) for (size_t j = i % 3; j < m; j += 3) for (size_t k = (i + j) % 5; k < m; k += (tier ? 5 : 11)) {
+                        unsigned lane = (unsigned)((fill + rot) % W);
+                        c.v[0][lane] = S[i]; c.v[1][lane] = S[j]; c.v[2][lane] = S[k];
+                        if (++fill == W) { emit(&c, ctx); fill = 0; ++rot; }
+                    }
+                    if (fill) emit(&c, ctx);
+                }
+                continue;
+            }
             const bool unary = op >= OP_PREINC;
             for (int mode = 0; mode < 4; ++mode) {
                 if (tier == 0 && op >= OP_ADD_A && op <= OP_DIV_A && mode != 0 && mode != (int)((seed + op) % 3) + 1) continue;   // quick: assignment forms in nearest + one directed mode
